@@ -99,8 +99,8 @@ pub enum MapOp {
     Len,
     IsEmpty,
     Capacity,
-    Drain(usize, bool),
-    IntoIter(IntoKind, usize, bool),
+    Drain(Take, End),
+    IntoIter(IntoKind, Take, End),
     Iter(IterKind, i32, Vec<Cmd>),
     CloneTo(usize),
     /// `dst.clone_from(&self)` (same capacity; otherwise treated as `dst = self.clone()`)
@@ -129,8 +129,8 @@ pub enum SetOp {
     Len,
     IsEmpty,
     Capacity,
-    Drain(usize, bool),
-    IntoIter(usize, bool),
+    Drain(Take, End),
+    IntoIter(Take, End),
     Iter(Vec<Cmd>),
     CloneTo(usize),
     /// `dst.clone_from(&self)` (same capacity; otherwise treated as `dst = self.clone()`)
@@ -243,11 +243,39 @@ fn sreg(s: &str) -> Option<usize> {
         _ => None,
     }
 }
-fn end(s: &str) -> Option<bool> {
+/// what happens to a drain / consuming iterator after the items were taken
+#[derive(Clone, Copy, Debug, PartialEq)]
+pub enum End {
+    Drop,
+    Forget,
+    /// `count()`: consumes the iterator, the remaining elements are destroyed
+    Count,
+}
+/// how items are taken from a drain / consuming iterator
+#[derive(Clone, Copy, Debug, PartialEq)]
+pub enum Take {
+    /// `n` calls of `next()`
+    Next(usize),
+    /// one call of `nth(k)` (std's provided method unless the crate overrides it)
+    Nth(usize),
+    /// `last()`: consumes the iterator
+    Last,
+}
+fn end(s: &str) -> Option<End> {
     match s {
-        "drop" => Some(false),
-        "forget" => Some(true),
+        "drop" => Some(End::Drop),
+        "forget" => Some(End::Forget),
+        "count" => Some(End::Count),
         _ => None,
+    }
+}
+fn take(s: &str) -> Option<Take> {
+    if s == "z" {
+        Some(Take::Last)
+    } else if let Some(k) = s.strip_prefix('t') {
+        Some(Take::Nth(k.parse().ok()?))
+    } else {
+        Some(Take::Next(s.parse().ok()?))
     }
 }
 fn fmtk(s: &str) -> Option<FmtKind> {
@@ -303,7 +331,7 @@ fn map_op(a: &[&str]) -> Option<MapOp> {
         ["len"] => MapOp::Len,
         ["is_empty"] => MapOp::IsEmpty,
         ["capacity"] => MapOp::Capacity,
-        ["drain", t, e] => MapOp::Drain(t.parse().ok()?, end(e)?),
+        ["drain", t, e] => MapOp::Drain(take(t)?, end(e)?),
         ["into_iter", kind, t, e] => {
             let kind = match *kind {
                 "pairs" => IntoKind::Pairs,
@@ -311,7 +339,7 @@ fn map_op(a: &[&str]) -> Option<MapOp> {
                 "values" => IntoKind::Values,
                 _ => return None,
             };
-            MapOp::IntoIter(kind, t.parse().ok()?, end(e)?)
+            MapOp::IntoIter(kind, take(t)?, end(e)?)
         }
         ["iter", kind, n, s] => {
             let kind = match *kind {
@@ -365,8 +393,8 @@ fn set_op(a: &[&str]) -> Option<SetOp> {
         ["len"] => SetOp::Len,
         ["is_empty"] => SetOp::IsEmpty,
         ["capacity"] => SetOp::Capacity,
-        ["drain", t, e] => SetOp::Drain(t.parse().ok()?, end(e)?),
-        ["into_iter", t, e] => SetOp::IntoIter(t.parse().ok()?, end(e)?),
+        ["drain", t, e] => SetOp::Drain(take(t)?, end(e)?),
+        ["into_iter", t, e] => SetOp::IntoIter(take(t)?, end(e)?),
         ["iter", s] => SetOp::Iter(script(s)?),
         ["clone", d] => SetOp::CloneTo(sreg(d)?),
         ["clone_from", d] => SetOp::CloneFrom(sreg(d)?),
